@@ -2,6 +2,7 @@ package main
 
 import (
 	"fmt"
+	"github.com/mattn/anko/parser"
 	"math/rand"
 	"reflect"
 	"sort"
@@ -1177,6 +1178,25 @@ func streamGoConv(o *Out, r *rand.Rand, n int, thorough bool) {
 				return ""
 			}},
 		}
+		// two DIFFERENT Go struct types that print alike (declared in different function scopes, as same-named types of two packages
+		// with one package name would): member syntax reads and writes the field of THAT type
+		_ = e.Define("recA", mkRecA())
+		_ = e.Define("recB", mkRecB())
+		eq := func(src, want string) {
+			named = append(named, struct {
+				src   string
+				check func(res interface{}, err error) string
+			}{src, func(res interface{}, err error) string {
+				if err != nil || fmt.Sprint(res) != want {
+					return fmt.Sprintf("expected %s: got %v, err %v", want, res, err)
+				}
+				return ""
+			}})
+		}
+		eq("[recA.Name, recA.ID, recB.Name, recB.ID]", "[ann 7 bob 9]")
+		eq("[recB.Name, recB.ID, recA.Name, recA.ID]", "[bob 9 ann 7]")
+		eq("recA.ID = 70\nrecB.ID = 90\nrecB.Name = \"rob\"\nrecA.Name = \"anna\"\n[recA.Name, recA.ID, recB.Name, recB.ID]", "[anna 70 rob 90]")
+		eq("recA.ID = 7\nrecB.ID = 9\nrecB.Name = \"bob\"\nrecA.Name = \"ann\"\n[recA.Only, recB.Extra]", "[true 1.5]")
 		for _, c := range named {
 			res, err, p := execGuard(e, c.src)
 			o.Sum.Evaluations++
@@ -1185,6 +1205,40 @@ func streamGoConv(o *Out, r *rand.Rand, n int, thorough bool) {
 				o.Fail(Failure{Oracle: "no-panic", Key: "goconv-panic:named", Input: c.src, Detail: fmt.Sprint(p)})
 			} else if msg := c.check(res, err); msg != "" {
 				o.Fail(Failure{Oracle: "go-conversion", Key: "goconv-named:" + c.src, Input: c.src + "   (Go values bound by the host; parameter of a named type / pointer mismatch)", Detail: msg})
+			}
+		}
+	}
+	// (4b) one parsed program run at the same time in 8 environments that bind the same names to different Go values: every call of
+	// a method, a package-style function in a map, a function in a list reaches the callee of ITS environment
+	{
+		stmt, perr := parser.ParseSrc("t = 0\nfor i = 0; i < 3000; i++ {\nt += obj.Get()\nt += fns.get()\nt += lst[0]()\n}\nt")
+		if perr != nil {
+			o.Fail(Failure{Oracle: "go-conversion", Key: "goconv-concurrent-parse", Input: "concurrent call-site program", Detail: perr.Error()})
+		} else {
+			var wg sync.WaitGroup
+			bad := make(chan string, 8)
+			for k := 1; k <= 8; k++ {
+				wg.Add(1)
+				go func(k int64) {
+					defer wg.Done()
+					e := env.NewEnv()
+					_ = e.Define("obj", &goGetter{N: k})
+					_ = e.Define("fns", map[string]interface{}{"get": func() int64 { return k }})
+					_ = e.Define("lst", []interface{}{func() int64 { return k }})
+					v, err := vm.Run(e, nil, stmt)
+					if err != nil || fmt.Sprint(v) != fmt.Sprint(9000*k) {
+						bad <- fmt.Sprintf("environment %d: expected %d, got %v (err %v)", k, 9000*k, v, err)
+					}
+				}(int64(k))
+			}
+			wg.Wait()
+			close(bad)
+			o.Sum.Evaluations++
+			o.Sum.Hist["concurrent-call-sites"]++
+			for msg := range bad {
+				o.Fail(Failure{Oracle: "go-conversion", Key: "goconv-concurrent-call-site", Input: "one tree, 8 goroutines, each its own environment with obj = &goGetter{N: k}, fns.get and lst[0] returning k: t = 0; for i < 3000 { t += obj.Get(); t += fns.get(); t += lst[0]() }; t",
+					Detail: msg})
+				break
 			}
 		}
 	}
@@ -1244,3 +1298,27 @@ func (e *goMyErr) Error() string { return e.msg }
 type goColor string
 
 func (c goColor) Hex() string { return "#" + string(c) }
+
+// goGetter: a receiver whose method tells which receiver it was called on.
+type goGetter struct{ N int64 }
+
+func (g *goGetter) Get() int64 { return g.N }
+
+// mkRecA / mkRecB: two different struct types with the same printed name and different layouts.
+func mkRecA() interface{} {
+	type rec struct {
+		Name string
+		ID   int64
+		Only bool
+	}
+	return &rec{"ann", 7, true}
+}
+
+func mkRecB() interface{} {
+	type rec struct {
+		ID    int64
+		Extra float64
+		Name  string
+	}
+	return &rec{9, 1.5, "bob"}
+}
